@@ -26,8 +26,8 @@ ASSUMPTIONS = ['context switches happen only at python line events inside the aw
                'interleavings are sampled; each sampled interleaving is exact and replayable; nothing is claimed for interpreters without a GIL']
 
 BODY_KINDS = ['plain', 'include', 'include', 'include', 'nested-include', 'unsafe', 'parse-error', 'missing-include', 'merge-error',
-              'two-sources', 'nested-include', 'eval', 'eval-error', 'rec', 'required-missing', 'raw-string']
-EVALUABLE = ('plain', 'include', 'unsafe', 'two-sources', 'nested-include', 'eval', 'eval-error', 'rec', 'required-missing', 'raw-string')
+              'two-sources', 'nested-include', 'eval', 'eval-error', 'rec', 'required-missing', 'raw-string', 'alias', 'alias-ops', 'alias', 'alias-ops']
+EVALUABLE = ('plain', 'include', 'unsafe', 'two-sources', 'nested-include', 'eval', 'eval-error', 'rec', 'required-missing', 'raw-string', 'alias', 'alias-ops')
 
 
 @st.composite
@@ -60,6 +60,35 @@ def _case(draw):
 
 def strategy():
     return _case()
+
+
+_STATIC = {'snap': None}
+
+
+def _static_state():
+    """Mutable class-level attributes (lists / dicts / sets) of the classes of the package, with a copy of their content."""
+    import sys, copy
+    out = []
+    seen = set()
+    for name, mod in list(sys.modules.items()):
+        if mod is None or not (name == 'awesomeyaml' or name.startswith('awesomeyaml.')):
+            continue
+        for cls in list(vars(mod).values()):
+            if isinstance(cls, type) and getattr(cls, '__module__', '').startswith('awesomeyaml') and id(cls) not in seen:
+                seen.add(id(cls))
+                for attr, val in list(vars(cls).items()):
+                    if isinstance(val, (list, dict, set)) and not attr.startswith('__') and attr != '_types':
+                        out.append((val, copy.copy(val)))
+    return out
+
+
+def _restore_static_state():
+    if _STATIC['snap'] is None:
+        return
+    for live, content in _STATIC['snap']:
+        if live != content:
+            live.clear()
+            (live.extend if isinstance(live, list) else live.update)(content)
 
 
 def _write_files(root, i, body):
@@ -104,6 +133,12 @@ def _write_files(root, i, body):
         text = f'---\nwho: {i}\n{items}need{i}: !required\n'
     elif kind == 'raw-string':
         text = f'---\nwho: {i}\n{items}'
+    elif kind == 'alias':
+        # yaml anchors / aliases: plain data made afresh for every place
+        text = f'---\nwho: {i}\n{items}am: &m{i} {{k: {i}, l: [{i}]}}\nbm: *m{i}\nal: [*m{i}, {i}]\n'
+    elif kind == 'alias-ops':
+        # ... and a node that acts where it stands, repeated through an alias: it acts at each place on what is there
+        text = f'---\nwho: {i}\n{items}first: [1]\nsecond: [2]\n---\nfirst: &more{i} !append [9{i}]\nsecond: *more{i}\n'
     else:
         text = f'---\nwho: {i}\nl: [1, 2]\n{items}---\nl: {{7: x}}\n'
     with open(main, 'w') as f:
@@ -152,6 +187,9 @@ def run_case(case):
             path, text = _write_files(root, i, b)
             bodies.append(_body(path, b['safe'], b['evaluate'] and b['kind'] in EVALUABLE, b['kind'], text))
             texts.append(f'[thread {i}: {os.path.relpath(path, root)} safe={b["safe"]} kind={b["kind"]}]')
+        if _STATIC['snap'] is None:
+            import awesomeyaml     # noqa
+            _STATIC['snap'] = _static_state()       # (before this process has built anything)
         # sequential reference
         ref = []
         for fn in bodies:
@@ -160,10 +198,12 @@ def run_case(case):
             except Exception as e:      # noqa
                 ref.append(_shape(('err', e)))
         if case.get('fresh_types'):
-            # as in a process that has not built a config yet: the classes for plain scalars are made on first use
+            # as in a process that has not built a config yet: the classes for plain scalars are made on first use - and whatever else
+            # the classes of the package keep at class level (registries, caches filled on first use) is as it was after import
             try:
                 from awesomeyaml.nodes.scalar import ConfigScalarMeta
                 ConfigScalarMeta._types.clear()
+                _restore_static_state()
             except Exception:       # noqa
                 pass
         try:
